@@ -32,6 +32,7 @@ import crashfs
 import vlib
 
 LEVEL = "model_checking"
+CLAIMED = True   # set by the lead after review; only claimed checks enter MANIFEST.json
 
 MANIFEST = dict(
     category="model_checking",
